@@ -638,6 +638,7 @@ def merged_eval(I, elem, xs, gen, elt_expr, env, module, site, bound=None):
             p.assume(c)
         p.counter = parent.counter + 1000 * (1 + len(parent.decisions))
         p.call_depth = parent.call_depth
+        p.in_comprehension = True        # the element expression is evaluated once, for an arbitrary element: only pure bodies are covered
         sub = Interp(p, I.src)
         inner = Env(env)
         sub.assign_target(gen.target, SV(elem if bound is None else bound), inner, module)
